@@ -6,9 +6,9 @@ import NrfModel.BleDev
 namespace Nrf.Props.C09
 open Nrf
 
-/-- a register write that respects the write mask logs no violation and stores the value -/
-theorem C09_maskWrite_clean (r : Radio) (name : String) (mask v : Nat) (h : v &&& mask = v) :
-    r.maskWrite name mask v = (r, v) := by
-  simp [Radio.maskWrite, h]
+/-- a register write that respects the write mask logs nothing -/
+theorem C09_reservedLog_clean (name : String) (mask v : Nat) (h : v &&& mask = v) :
+    Radio.reservedLog name mask v = [] := by
+  simp [Radio.reservedLog, h]
 
 end Nrf.Props.C09
